@@ -963,6 +963,62 @@ class TextWholeFloats(WholeFloats):
     ]
 
 
+class ArgumentKinds(Sub):
+    name = 'c15.argument_kinds'
+    rule = ('what the other text functions and & take as text, every text function takes: a one-cell range ([[v]]) or one-item array '
+            'in the place of a text, a count, an instance number or a delimiter is its item (differential against the bare value); a '
+            'whole number in the place of a text is its digits whether it arrives as an integer or as a whole float (UPPER(10/2) is '
+            '"5" as LEN(10/2) is 1) - for 17 call forms x 6 texts / 4 numbers; SUBSTITUTE with numbers as old / new text; a blank '
+            'text under LEFT / RIGHT / MID is the empty text; non-trivial = all')
+    min_cases = 50
+    min_nontrivial = 50
+    FORMS = ['LEN({0})', 'UPPER({0})', 'LOWER({0})', 'PROPER({0})', 'TRIM({0})', 'CLEAN({0})', 'LEFT({0},2)', 'RIGHT({0},2)', 'MID({0},2,2)',
+             'SUBSTITUTE({0},"l","L")', 'SUBSTITUTE({0},"l","L",2)', 'CODE({0})', 'LEFT("hello",{1})', 'MID("hello",{1},{1})',
+             'SUBSTITUTE("hello","l","L",{1})', 'TEXTJOIN({2},TRUE,"a","b")', 'CODE(CHAR({3}))']
+    TEXTS = ['hello', 'a b', 'x', 'Hello World', 'll', '12']
+
+    def cases(self, tier, unit):
+        for fi in range(len(self.FORMS)):
+            for ti in range(len(self.TEXTS)):
+                yield ['cell', fi, ti]
+        for fi in range(12):
+            for n in (5, 120, 0, 12345):
+                yield ['num', fi, n]
+        yield ['misc', 0, 0]
+
+    def check(self, env, case):
+        kind, fi, x = case
+        env.nt()
+        if kind == 'cell':
+            t = self.TEXTS[x]
+            f = self.FORMS[fi].format('xa', 'xn', 'xd', 'xc')
+            bare = {'xa': t, 'xn': 2, 'xd': ',', 'xc': 65}
+            base = env.evo(f, vars=bare)
+            for how, wrap in (('a one-cell range', lambda v: [[v]]), ('a one-item array', lambda v: [v])):
+                o = env.evo(f, vars=dict((k, wrap(v)) for k, v in bare.items()))
+                if o != base:
+                    return fail('%s with every argument %s %r gives %r, with the bare values %r it gives %r' % (
+                        f, how, dict((k, wrap(v)) for k, v in bare.items()), o, bare, base), base, o)
+            return None
+        if kind == 'num':
+            f = self.FORMS[fi].format('xa')
+            a = env.evo(f, vars={'xa': x})
+            b = env.evo(f, vars={'xa': float(x)})
+            c = env.evo(f, vars={'xa': str(x)})
+            if a != b:
+                return fail('%s with xa = %r gives %r, with xa = %r (the same whole number as a float) it gives %r' % (f, x, a, float(x), b), a, b)
+            if fi < 11 and a != c and not (self.FORMS[fi].startswith('TRIM') and a == ['v', x]):      # TRIM may hand a number on as it is
+                return fail('%s with the whole number xa = %r gives %r, with its digits as text %r it gives %r' % (f, x, a, str(x), c), c, a)
+            return None
+        for f, want in (('SUBSTITUTE("a1a","1",2)', 'a2a'), ('SUBSTITUTE("a1a",1,"x")', 'axa'), ('SUBSTITUTE(12345,"3","x")', '12x45'),
+                        ('LEFT(xb,1)', ''), ('RIGHT(xb,2)', ''), ('MID(xb,1,1)', ''), ('LEFT(xb,0)&RIGHT(xb,LEN(xb)-0)=xb&""', True),
+                        ('LEFT(12345,2)&RIGHT(12345,LEN(12345)-2)', '12345'), ('MID(12345,1,2)', '12'), ('LEN(UPPER(10/2))=LEN(10/2)', True)):
+            o = env.evo(f, vars={'xb': None})
+            if o != ['v', want]:
+                return fail('%s%s gives %r, expected %r' % (f, ' with xb blank' if 'xb' in f else '', o, want), ['v', want], o)
+        return None
+
+
 NEEDS_ZYGOTE = True
 
 
@@ -1030,4 +1086,4 @@ class TextScale(Sub):
         return out
 
 
-SUBS = [Slices(), SliceLaws(), LenConcat(), CaseTrimClean(), CaseSpecial(), CodeChar(), Join(), Substitute(), TextWholeFloats(), TextSiblings(), TextScale()]
+SUBS = [Slices(), SliceLaws(), LenConcat(), CaseTrimClean(), CaseSpecial(), CodeChar(), Join(), Substitute(), TextWholeFloats(), ArgumentKinds(), TextSiblings(), TextScale()]
